@@ -122,6 +122,8 @@ type SimPeer struct {
 	// message this node sent (reset by the scenario when it wants to know
 	// what was offered since some moment).
 	hdrTipsSent map[chainhash.Hash]bool
+	// hdrOfferBase, if set: the client's tip when the current offer was made.
+	hdrOfferBase *chainmodel.Block
 	// liedWhenAsked: answered a getcfheaders whose range covers one of its
 	// lie heights.
 	liedWhenAsked bool
@@ -396,6 +398,13 @@ func (p *SimPeer) noteHeaders(m *wire.MsgHeaders) {
 	}
 	if p.hdrTipsSent == nil {
 		p.hdrTipsSent = map[chainhash.Hash]bool{}
+	}
+	// Only a message whose first header builds on a block the client's
+	// chain had when the offer was made hands the client a branch.
+	if p.hdrOfferBase != nil {
+		if b := p.w.tree.ByHash[m.Headers[0].PrevBlock]; b == nil || !b.IsAncestorOf(p.hdrOfferBase) {
+			return
+		}
 	}
 	p.hdrTipsSent[m.Headers[len(m.Headers)-1].BlockHash()] = true
 }
